@@ -275,6 +275,81 @@ Qed.
 Lemma decompress_reuse dpath (d : dir) c z : lookup d dpath = Some c -> decompress d dpath z = ([DEx dpath], true).
 Proof. intros H. unfold decompress. now rewrite H. Qed.
 
+(* ---- both functions follow the rename discipline of Common/AtomFS.v ---------------- *)
+
+Definition is_final (p : str) (n : str) : bool := streqb n p.
+
+Lemma applys19_run (es : list ev) : forall d : dir, applys19 d es = AtomFS.run streqb d (map (@fs_step19 Blk) es).
+Proof. induction es as [|e es IH]; intros d; [reflexivity|]. cbn [applys19 fold_left map AtomFS.run]. apply IH. Qed.
+
+Lemma untouched_disciplined p es : forall d : dir, Forall (untouched p) es ->
+  disciplined_run streqb (is_final p) d (map (@fs_step19 Blk) es).
+Proof.
+  induction es as [|e es IH]; intros d H; [exact I|]. inversion H as [|? ? He Hes]; subst.
+  split; [|apply (IH _ Hes)]. unfold is_final.
+  destruct e; cbn [fs_step19 disciplined untouched] in *; try exact I.
+  - now apply neq_eqb.
+  - destruct He as [_ Hb]. intros E. apply streqb_spec in E. contradiction.
+Qed.
+
+Lemma safe_then_rename_disciplined p t P (d : dir) safe : Forall (untouched p) safe ->
+  lookup (applys19 d safe) t = Some (Whole P) ->
+  disciplined_run streqb (is_final p) d (map (@fs_step19 Blk) (safe ++ [DRn t p])).
+Proof.
+  intros Hs Ht. rewrite map_app. apply disciplined_run_app. split; [now apply untouched_disciplined|].
+  rewrite <- applys19_run. cbn [map fs_step19 disciplined_run disciplined]. split; [|exact I].
+  intros _. rewrite Ht. discriminate.
+Qed.
+
+Lemma download_disciplined path (d : dir) src :
+  disciplined_run streqb (is_final path) d (map (@fs_step19 Blk) (fst (download d path src))).
+Proof.
+  unfold download. set (part := path ++ download_partial_suffix).
+  assert (Hp : part <> path) by apply dl_part_neq.
+  destruct (lookup d path) as [c|] eqn:El; [cbn [fst]; apply untouched_disciplined; repeat constructor|].
+  destruct (s_get src); cbn [negb]; [|cbn [fst]; apply untouched_disciplined; repeat constructor; exact Hp].
+  destruct (s_status src); cbn [negb]; [|cbn [fst]; apply untouched_disciplined; repeat constructor; exact Hp].
+  destruct (s_length src) as [len|]; [|cbn [fst]; apply untouched_disciplined; repeat constructor; exact Hp].
+  destruct (dl_loop part _ 0 (s_reads src) []) as [[e acc] ok] eqn:E.
+  assert (He : Forall (untouched path) e) by (eapply dl_loop_untouched; eassumption).
+  destruct ok; cbn [fst].
+  - rewrite !app_assoc. apply (safe_then_rename_disciplined path part acc d).
+    + rewrite <- !app_assoc. repeat (apply Forall_app; split); repeat constructor; try exact Hp. exact He.
+    + apply close_lookup.
+  - apply untouched_disciplined. repeat (apply Forall_app; split); repeat constructor; try exact Hp. exact He.
+Qed.
+
+Lemma decompress_disciplined dpath (d : dir) z :
+  disciplined_run streqb (is_final dpath) d (map (@fs_step19 Blk) (fst (decompress d dpath z))).
+Proof.
+  unfold decompress. set (dpart := dpath ++ decompress_partial_suffix).
+  assert (Hp : dpart <> dpath) by apply dc_part_neq.
+  destruct (lookup d dpath) as [c|] eqn:El; [cbn [fst]; apply untouched_disciplined; repeat constructor|].
+  destruct (z_open z); cbn [negb]; [|cbn [fst]; apply untouched_disciplined; repeat constructor].
+  destruct (cp_loop dpart 0 (z_chunks z) []) as [[e acc] ok] eqn:E.
+  assert (He : Forall (untouched dpath) e) by (eapply cp_loop_untouched; eassumption).
+  destruct ok; cbn [fst].
+  - rewrite !app_assoc. apply (safe_then_rename_disciplined dpath dpart acc d).
+    + rewrite <- !app_assoc. repeat (apply Forall_app; split); repeat constructor; try exact Hp. exact He.
+    + apply close_lookup.
+  - apply untouched_disciplined. repeat (apply Forall_app; split); repeat constructor; try exact Hp. exact He.
+Qed.
+
+(* hence, whatever the source does (honest or not), the final path is never torn *)
+Lemma download_never_tears path (d : dir) src m : no_torn_final streqb (is_final path) d ->
+  no_torn_final streqb (is_final path) (applys19 d (firstn m (fst (download d path src)))).
+Proof.
+  intros Hd. rewrite applys19_run, <- firstn_map.
+  apply (tmp_then_rename_atomic streqb streqb_spec (is_final path)); [exact Hd|apply download_disciplined].
+Qed.
+
+Lemma decompress_never_tears dpath (d : dir) z m : no_torn_final streqb (is_final dpath) d ->
+  no_torn_final streqb (is_final dpath) (applys19 d (firstn m (fst (decompress d dpath z)))).
+Proof.
+  intros Hd. rewrite applys19_run, <- firstn_map.
+  apply (tmp_then_rename_atomic streqb streqb_spec (is_final dpath)); [exact Hd|apply decompress_disciplined].
+Qed.
+
 (* sequences of interrupted calls *)
 Fixpoint after (d : dir) (l : list (call Blk * option nat)) : dir :=
   match l with
